@@ -18,7 +18,7 @@ except Exception:  # pragma: no cover
 
 META = {
     "technique": "Lean 4 algebra over the model of initialize_velocity/_zero_com (exact rescale to the target temperature, linear/angular momentum removal given I w = L, kinetic-energy restoration, padding mask) + re-seeding correspondence + step-0 / momentum / seeding probes",
-    "level_text": "Theorems over the reals: after the rescale the kinetic temperature equals the target exactly (T1 > 0) under the dof count in force; after linear removal sum m v = 0, after angular removal sum m r x v = 0 with linear momentum still 0 (given I w = L); kinetic-energy restoration returns exactly the previous kinetic energy and keeps the momenta zero; the masked subtraction leaves padding atoms (mass 0) at rest while still removing the momentum (the unmasked variant is refuted by a witness); T = 0 gives zero velocities. Tied to the code by comparing the Maxwell-Boltzmann scale, rescale and COM removal with the compiled Float model using noise recovered by re-seeding, and by probing the step-0 state of real runs (temperature, momenta, padding rows), seed reproducibility after arbitrary prior RNG consumption, seed sensitivity and the handling of user-supplied velocities.",
+    "level_text": "Theorems over the reals: after the rescale the kinetic temperature equals the target exactly (T1 > 0) under the dof count in force; after linear removal sum m v = 0, after angular removal sum m r x v = 0 with linear momentum still 0 (given I w = L); kinetic-energy restoration returns exactly the previous kinetic energy and keeps the momenta zero; the masked subtraction leaves padding atoms (mass 0) at rest while still removing the momentum (the unmasked variant is refuted by a witness); T = 0 gives zero velocities. Tied to the code by comparing the Maxwell-Boltzmann scale, rescale and COM removal with the compiled Float model using noise recovered by re-seeding, and by probing the step-0 state of real runs (temperature, momenta, padding rows), seed reproducibility after arbitrary prior RNG consumption, seed sensitivity and the handling of user-supplied velocities. Translator tie: Maxwell-Boltzmann scale, draw, exact-temperature factor, temperature and the three set_dof variants as the source computes them are the model's (ThermoTie).",
     "level_note": "Trusted: Lean kernel; harness; torch.linalg.pinv solves I w = L on range(I) (hypothesis). Bitwise reproducibility is runtime behaviour observed by the probe. Known finding F12: user-supplied velocities are stripped of rigid-body motion (a pure translation raises) although the manual says they are used directly.",
     "design_ref": "DESIGN.md section 5 C13",
 }
